@@ -312,6 +312,18 @@ def r02_8(ctx, rep):
                    "process skips initialisation and works on a database without tables" % what, path=cfg.describe(w) if w else "")
 
 
+@SPEC.rule(
+    "R02.9",
+    "the structure check is complete for every caller: every path through _check_database_structure looks at both tables, and "
+    "each table's (re)creation is decided from its own verdict (same rule as R01.10) — a second first-time caller that arrives "
+    "between the creator's two commits must not conclude from a correct `models` table that `metadata` exists too",
+)
+def r02_9(ctx, rep):
+    from .c01 import table_verdicts
+
+    table_verdicts(ctx, rep, "R02.9")
+
+
 # -- seeded variants ---------------------------------------------------------
 from ._mut import delete_stmt_where, replace_const_str, replace_in_func  # noqa: E402
 
